@@ -83,9 +83,9 @@ class SimKernel:
 
     def proc_ioprio_set(self, pid, ioclass, iodata):
         ioclass, iodata = _c_int(ioclass), _c_int(iodata)
-        if ioclass < 0 or ioclass >= 2 ** 18:
-            raise OutOfModel("ioclass << 13 is undefined in C")
-        raw = (ioclass << 13) | iodata
+        raw = (((ioclass % 2 ** 32) << 13) % 2 ** 32) | (iodata % 2 ** 32)   # unsigned shift (a87b45e)
+        if raw >= 2 ** 31:
+            raw -= 2 ** 32
         p = self._p(pid)
         self.log.append(("ioprio_set", pid, raw))
         cls, data = raw >> 13, raw & 0x1FFF
